@@ -105,7 +105,7 @@ def py_construct(p, f):
     polls = _Polls()
     try:
         with cpu_alarm(CONSTRUCT_ALARM_S):
-            re_obj = rx.RegExp(p, f, poll_callback=polls)
+            re_obj = rx.RegExp(p, f, poll_callback=polls, poll_interval=100)  # the step bound below counts polls of 100 steps
         out = ("ok", None)
     except pool.HarnessTimeout:
         out = ("cpu", None)
